@@ -5,6 +5,10 @@ ROOT = os.path.dirname(os.path.dirname(os.path.abspath(__file__)))
 
 # id -> (technique, level text, level note, design ref)
 CHECKS = {
+ "C10": ("stateful model-based testing: generated histories of add / batch add / replace / autoescape reconfiguration over a pool of interrelated valid and invalid sources; the model is the map name -> source plus the suffix list, and after every call the instance must be observably equal to a fresh instance built in one batch from the resulting set (success) or the previous set (failure)",
+         "Exploration: 120k histories of up to 12 operations (quick; x15 thorough, up to 40) = ~700k add calls of which ~70% fail in one of the ten invalid ways, each followed by a full observation (names, renders with 3 contexts, render_block x 4, template variables, component definitions and API renders) against a fresh instance; 60k final sets reached through two different histories.",
+         "Trusted base: Tera::new + add_raw_templates on a fresh instance as the reference. Acceptance is compared only in the stated direction (an incremental add may fail where a batch succeeds); error results are compared by kind, not text.",
+         "DESIGN.md section 4 C10"),
  "C11": ("model-based differential on generated template graphs: an independent graph analysis (name resolution through fallback prefixes, dangling edges, extends cycles, include cycles) decides accepted/rejected and, for single-fault sets, the error kind; every accepted set is rendered from every template and must return; registration and rendering run in crash-isolated worker subprocesses",
          "Exploration: 900k random graphs over 2-9 templates and 200k chains/rings of 2-32 per quick run (x10 thorough), with include edges placed at top level, in blocks, component bodies, captures, dead branches and loops, missing targets, three directories of which up to two are fallback prefixes in either order (short and full spellings, exact names shadowing prefixed ones); 16 hand-written sets incl. the F9/F10 shapes.",
          "Trusted base: the 60-line graph analysis in harness/src/props/c11.rs and the process supervisor. Termination is observed for depths <= 32 in the reference environment; with several fault classes only accepted-vs-rejected is compared.",
